@@ -372,3 +372,33 @@ package constraint
 //@ func (Const).Bool()
 //@   props C02
 //@   implements BoolKeeper.Bool
+
+//@ func (RequiredKeys).Keys()
+//@   props C01
+//@   nopanic
+//@   ensures result == c.keys
+
+//@ func (TypesList).Names()
+//@   props C03 C09
+//@   nopanic
+//@   ensures result == c.innerTypeNames
+//@ func (TypesList).Len()
+//@   props C03
+//@   nopanic
+//@   ensures result == len(c.innerTypeNames)
+//@ func (TypesList).HasUserTypes()
+//@   props C03
+//@   nopanic
+//@   ensures result == c.hasUserTypes
+
+// C16: the three per-name lists of a types list grow together
+//@ func (*TypesList).AddNameWithASTNode(name, typ, an)
+//@   props C16 C03
+//@   requires c != nil && len(name) > 0
+//@   requires c.typeNames.$arr == 0 || c.typeNames.$arr != c.innerTypeNames.$arr
+//@   nopanic
+//@   modifies c.innerTypeNames, c.innerTypeNames[*], c.typeNames, c.typeNames[*], c.elementASTNodes, c.elementASTNodes[*], c.hasUserTypes
+//@   ensures len(c.innerTypeNames) == old(len(c.innerTypeNames)) + 1
+//@   ensures len(c.typeNames) == old(len(c.typeNames)) + 1 && c.typeNames[old(len(c.typeNames))] == typ
+//@   ensures len(c.elementASTNodes) == old(len(c.elementASTNodes)) + 1
+//@   ensures c.hasUserTypes == (old(c.hasUserTypes) || name[0] == '@')
